@@ -181,7 +181,7 @@ theorem pegSkipAlts_bnd (hr : PBnd len run) (p : Nat) (hp : p ≤ len) : ∀ xs 
     · rename_i v p' he
       split at h
       · simp at h; subst h; exact (hr x p v _ he hp).1
-      · simp at h
+      · exact ih _ h
 
 theorem pegSkipLoop_bnd (hr : PBnd len run) (xs : List Expr) :
     ∀ fuel p v p', pegSkipLoop run xs fuel p = some (.ok v p') → p ≤ len → p' ≤ len ∧ v = .none := by
